@@ -65,6 +65,7 @@ type MethodSpec struct {
 	Beh    string      `json:"beh"` // echo fail internal nilres typednil both
 	Ctx    bool        `json:"ctx"` // handler takes a context.Context first
 	Hdr    bool        `json:"hdr"` // handler returns (result, http.Header, *Error)
+	Hold   bool        `json:"hold,omitempty"` // the handler reports that it was entered and blocks until the harness releases it
 	Params []ParamSpec `json:"params"`
 }
 
@@ -119,6 +120,10 @@ type World struct {
 	mu      sync.Mutex
 	calls   []Call
 	recErrs []string
+
+	// for handlers with Hold: entry notifications and the release signal (gate.go)
+	entered chan string
+	holdCh  chan struct{}
 }
 
 func (w *World) reset() {
@@ -151,8 +156,17 @@ func (w *World) handler(ms MethodSpec) any {
 		out = []reflect.Type{resType, headerType, errPtrType}
 	}
 	name, beh, hdr, ctx := ms.Name, ms.Beh, ms.Hdr, ms.Ctx
+	hold := ms.Hold
 	fn := func(args []reflect.Value) []reflect.Value {
 		var problems []string
+		if hold && w.entered != nil {
+			w.entered <- name
+			select {
+			case <-w.holdCh:
+			case <-time.After(60 * time.Second):
+				problems = append(problems, name+": the harness never released the held handler")
+			}
+		}
 		if ctx {
 			if args[0].IsNil() {
 				problems = append(problems, name+": nil context")
